@@ -94,6 +94,26 @@ def prototypes(text):
     return out
 
 
+FNPTR_RX = re.compile(r'^(.*?)\(\s*\*\s*([A-Za-z_]\w*)\s*\)\s*\((.*)\)\s*$', re.S)
+
+
+def fnptr_params(text):
+    """function name -> {parameter name: (result, [parameters])} for the function-pointer parameters of each prototype"""
+    out = {}
+    text = re.sub(r'/\*.*?\*/', ' ', text, flags=re.S)
+    text = re.sub(r'//[^\n]*', ' ', text)
+    text = "\n".join(l for l in text.split("\n") if not l.lstrip().startswith("#"))
+    for m in PROTO_RX.finditer(text):
+        name, params = m.group(2), m.group(3)
+        for p_ in split_params(params):
+            fm = FNPTR_RX.match(p_.strip())
+            if fm:
+                ps = [norm_type(drop_name(q)) for q in split_params(fm.group(3)) if "(" not in q]
+                if len(ps) == len(split_params(fm.group(3))):
+                    out.setdefault(name, {})[fm.group(2)] = (norm_type(fm.group(1)), ps, " ".join(p_.split()))
+    return out
+
+
 STRUCT_RX = re.compile(r'struct\s+(\w+)\s*\{([^{}]*)\}\s*(\w*)\s*;')
 TYPEDEF_RX = re.compile(r'typedef\s+struct\s+(\w+)\s+(\w+)\s*;')
 
@@ -204,10 +224,12 @@ def check(inp):
         if not fsrc or not hdrs:
             return None
         cprotos = {}
+        cfnptrs = {}
         LAYOUTS["c"], LAYOUTS["f"] = {}, {}
         for h in hdrs:
             text = open(os.path.join(out, h)).read()
             cprotos.update(prototypes(text))
+            cfnptrs.update(fnptr_params(text))
             LAYOUTS["c"].update(struct_layouts(text))
         fprotos = {}
         pending = list(fsrc)
@@ -224,8 +246,11 @@ def check(inp):
                     if r2.returncode != 0:
                         left.append(f)
                         continue
-                fprotos.update(prototypes(r.stdout))
-                LAYOUTS["f"].update(struct_layouts(r.stdout))
+                # a dummy gfortran cannot express ends the prototype it is printing with a comment and goes on with the next
+                # one on the same line: drop the unfinished head, keep what follows
+                ftxt = re.sub(r'(?m)^[^\n;]*\(/\* Cannot convert[^*]*\*/', '', r.stdout)
+                fprotos.update(prototypes(ftxt))
+                LAYOUTS["f"].update(struct_layouts(ftxt))
             if not left or len(left) == len(pending):
                 pending = left
                 break
@@ -249,6 +274,26 @@ def check(inp):
             if not compatible(cret, fret, result=True):
                 problems.append("%s: result not interoperable: C %r, Fortran interface means %r  [C: %s] [Fortran: %s]" % (
                     name, cret, fret, ctext, ftext))
+        # abstract interfaces: gfortran prints the interface of a procedure dummy as a prototype named <function>_<argument>;
+        # it must agree with the function-pointer type of that parameter in the C prototype
+        for cname, byarg in sorted(cfnptrs.items()):
+            for arg, (cret, cps, ctext) in sorted(byarg.items()):
+                cands = [n for n in fprotos if n not in cprotos and n.lower().endswith("_" + arg.lower())
+                         and cname.lower().endswith(n.lower()[:-(len(arg) + 1)])]
+                if len(cands) != 1:
+                    continue
+                fret, fps, ftext = fprotos[cands[0]]
+                if len(cps) != len(fps):
+                    problems.append("%s, procedure argument %s: C pointer type has %d parameters, the abstract interface %d  [C: %s] "
+                                    "[Fortran: %s]" % (cname, arg, len(cps), len(fps), ctext, ftext))
+                    continue
+                for i, (c, f) in enumerate(zip(cps, fps)):
+                    if not compatible(c, f):
+                        problems.append("%s, procedure argument %s: parameter %d not interoperable: C %r, the abstract interface "
+                                        "means %r  [C: %s] [Fortran: %s]" % (cname, arg, i + 1, c, f, ctext, ftext))
+                if not compatible(cret, fret, result=True):
+                    problems.append("%s, procedure argument %s: result not interoperable: C %r, the abstract interface means %r  "
+                                    "[C: %s] [Fortran: %s]" % (cname, arg, cret, fret, ctext, ftext))
         if problems:
             return "bind(C) interface disagrees with the generated C prototype: " + " ;; ".join(problems[:4])
         return None
@@ -284,6 +329,10 @@ def synthetic():
             # fixed-size array parameters (T arg[10], T arg[4][5]) are a recorded known finding (declared by value in the
             # interface): left out here, replayed by the check
             shapes.append("void f%%d(%s **arg +intent(%s)+rank(1))" % (t, intent))
+    for attr in ("", " +external"):
+        shapes.append("void f%%d(void (*hook)(int code, double *data)%s)" % attr)
+        shapes.append("int f%%d(int (*fn)(int code, double x)%s, int n)" % attr)
+        shapes.append("void f%%d(double (*get)(long i, const double *v)%s)" % attr)
     for t in ("int *", "double *", "const char *", "std::string", "const std::string &", "std::vector<int>", "int **"):
         for deref in (None, "raw", "pointer", "allocatable", "scalar"):
             for extra in ("", "+dimension(4)", "+owner(caller)"):
